@@ -5,7 +5,12 @@
    as a transition system whose atomic steps end exactly at the synchronisation points of the implementation:
    acquire of Dispatcher._lock, acquire of Module.updateLock (by driver threads in announceUpdate and, since the
    repair c1c8ab8, by handle_activate around the initial updates of each module), entry of make_update, send_reply
-   of a connection, receive of a connection.  No proofs in this file. *)
+   of a connection, receive of a connection, and - inside Dispatcher.subscribe and Dispatcher.reset_connection - every
+   set operation on a connection (set.add after the lookup-or-create of the per-event set; one set.discard per event
+   and one for the generic subscribers): a disconnect (remove_connection runs WITHOUT the dispatcher lock) can be
+   interleaved between the two steps of a subscribe of another connection.  The subscription table is a list of set
+   objects with an identity, so that `the set a thread looked up` and `the set bound to the event now` are different
+   notions.  No proofs in this file. *)
 From Coq Require Import List Arith Bool.
 Import ListNotations.
 
@@ -55,6 +60,14 @@ Inductive entry :=
 | ERep (r : reply)
 | EClose.
 
+(* a set object of Dispatcher._subscriptions: identity, the event name it was created for, members *)
+Record sentry := { e_id : nat; e_key : scope; e_mem : list conn }.
+(* what reset_connection discards the connection from: a per-event set (by identity: the loop runs over
+   list(self._subscriptions.items()), a snapshot of the (event, set object) pairs), the generic subscribers *)
+Inductive target := TSet (id : nat) | TActv.
+(* where reset_connection was called from *)
+Inductive dcont := KIdent | KClose.
+
 (* program counters; the name says at which synchronisation point the thread is parked *)
 Inductive cpc :=
 | CStart
@@ -68,6 +81,10 @@ Inductive cpc :=
 | CSendU (sc : scope) (m : nat) (i : nat) (v : nat) (todo : list nat) (groups : list (nat * list nat))
     (* updateLock of m held: send_reply of the built update of (m, i) *)
 | CSendR (r : reply)                                (* handle: send_reply of the reply, lock released *)
+| CAdd (sc : scope) (id : nat)
+    (* subscribe: setdefault returned the set object id (looked up or created); parked before set.add *)
+| CDisc (ts : list target) (k : dcont)
+    (* reset_connection: parked before the discard from the head of ts *)
 | CDone.
 
 Inductive upc :=
@@ -84,7 +101,8 @@ Inductive tid := TC (c : conn) | TU (u : nat).
 
 Record state := {
   actv : list conn;                  (* Dispatcher._active_connections *)
-  subs : list (conn * scope);        (* Dispatcher._subscriptions as a set of (connection, event name) *)
+  tbl : list sentry;                 (* Dispatcher._subscriptions: the set objects bound to an event, in dict order *)
+  nsets : nat;                       (* number of set objects created so far = identity of the next one *)
   cache : pid -> nat;                (* Parameter.value of every parameter *)
   logs : conn -> list entry;
   dlock : option conn;               (* owner of Dispatcher._lock *)
@@ -94,15 +112,16 @@ Record state := {
   bcasts : list (pid * nat * list conn);   (* ghost: completed broadcasts (parameter, value, selected listeners) *)
 }.
 
-Definition set_actv s v := {| actv := v; subs := subs s; cache := cache s; logs := logs s; dlock := dlock s; ulock := ulock s; cth := cth s; uth := uth s; bcasts := bcasts s |}.
-Definition set_subs s v := {| actv := actv s; subs := v; cache := cache s; logs := logs s; dlock := dlock s; ulock := ulock s; cth := cth s; uth := uth s; bcasts := bcasts s |}.
-Definition set_cache s v := {| actv := actv s; subs := subs s; cache := v; logs := logs s; dlock := dlock s; ulock := ulock s; cth := cth s; uth := uth s; bcasts := bcasts s |}.
-Definition set_logs s v := {| actv := actv s; subs := subs s; cache := cache s; logs := v; dlock := dlock s; ulock := ulock s; cth := cth s; uth := uth s; bcasts := bcasts s |}.
-Definition set_dlock s v := {| actv := actv s; subs := subs s; cache := cache s; logs := logs s; dlock := v; ulock := ulock s; cth := cth s; uth := uth s; bcasts := bcasts s |}.
-Definition set_ulock s v := {| actv := actv s; subs := subs s; cache := cache s; logs := logs s; dlock := dlock s; ulock := v; cth := cth s; uth := uth s; bcasts := bcasts s |}.
-Definition set_cth s v := {| actv := actv s; subs := subs s; cache := cache s; logs := logs s; dlock := dlock s; ulock := ulock s; cth := v; uth := uth s; bcasts := bcasts s |}.
-Definition set_uth s v := {| actv := actv s; subs := subs s; cache := cache s; logs := logs s; dlock := dlock s; ulock := ulock s; cth := cth s; uth := v; bcasts := bcasts s |}.
-Definition set_bcasts s v := {| actv := actv s; subs := subs s; cache := cache s; logs := logs s; dlock := dlock s; ulock := ulock s; cth := cth s; uth := uth s; bcasts := v |}.
+Definition set_actv s v := {| actv := v; tbl := tbl s; nsets := nsets s; cache := cache s; logs := logs s; dlock := dlock s; ulock := ulock s; cth := cth s; uth := uth s; bcasts := bcasts s |}.
+Definition set_tbl s v := {| actv := actv s; tbl := v; nsets := nsets s; cache := cache s; logs := logs s; dlock := dlock s; ulock := ulock s; cth := cth s; uth := uth s; bcasts := bcasts s |}.
+Definition set_nsets s v := {| actv := actv s; tbl := tbl s; nsets := v; cache := cache s; logs := logs s; dlock := dlock s; ulock := ulock s; cth := cth s; uth := uth s; bcasts := bcasts s |}.
+Definition set_cache s v := {| actv := actv s; tbl := tbl s; nsets := nsets s; cache := v; logs := logs s; dlock := dlock s; ulock := ulock s; cth := cth s; uth := uth s; bcasts := bcasts s |}.
+Definition set_logs s v := {| actv := actv s; tbl := tbl s; nsets := nsets s; cache := cache s; logs := v; dlock := dlock s; ulock := ulock s; cth := cth s; uth := uth s; bcasts := bcasts s |}.
+Definition set_dlock s v := {| actv := actv s; tbl := tbl s; nsets := nsets s; cache := cache s; logs := logs s; dlock := v; ulock := ulock s; cth := cth s; uth := uth s; bcasts := bcasts s |}.
+Definition set_ulock s v := {| actv := actv s; tbl := tbl s; nsets := nsets s; cache := cache s; logs := logs s; dlock := dlock s; ulock := v; cth := cth s; uth := uth s; bcasts := bcasts s |}.
+Definition set_cth s v := {| actv := actv s; tbl := tbl s; nsets := nsets s; cache := cache s; logs := logs s; dlock := dlock s; ulock := ulock s; cth := v; uth := uth s; bcasts := bcasts s |}.
+Definition set_uth s v := {| actv := actv s; tbl := tbl s; nsets := nsets s; cache := cache s; logs := logs s; dlock := dlock s; ulock := ulock s; cth := cth s; uth := v; bcasts := bcasts s |}.
+Definition set_bcasts s v := {| actv := actv s; tbl := tbl s; nsets := nsets s; cache := cache s; logs := logs s; dlock := dlock s; ulock := ulock s; cth := cth s; uth := uth s; bcasts := v |}.
 
 (* function update *)
 Definition upd {A} (f : nat -> A) (k : nat) (v : A) : nat -> A := fun k' => if Nat.eqb k' k then v else f k'.
@@ -153,6 +172,9 @@ Definition act_error (nd : node) (sc : scope) : option nat :=
   end.
 
 (* ---- subscription tables *)
+(* the table as the set of (connection, event name) pairs: membership in the set object bound to the event *)
+Definition subs (s : state) : list (conn * scope) :=
+  flat_map (fun e => map (fun c => (c, e_key e)) (e_mem e)) (tbl s).
 (* broadcast_event: subscribers of module:param, subscribers of module, generic subscribers *)
 Definition listens (s : state) (c : conn) (p : pid) : bool :=
   mems c (SP (fst p) (snd p)) (subs s) || mems c (SM (fst p)) (subs s) || memc c (actv s).
@@ -161,30 +183,56 @@ Definition covering (p : pid) (e : conn * scope) : bool :=
 Definition listeners (s : state) (p : pid) : list conn :=
   nodup Nat.eq_dec (map fst (filter (covering p) (subs s)) ++ actv s).
 
-(* subscribe / _active_connections.add *)
-Definition register (s : state) (c : conn) (sc : scope) : state :=
-  match sc with
-  | SG => set_actv s (c :: actv s)
-  | _ => set_subs s ((c, sc) :: subs s)
+(* _active_connections.add (activate of the whole node; one step with the checks of handle_activate) *)
+Definition register_g (s : state) (c : conn) : state := set_actv s (c :: actv s).
+
+(* subscribe, first half: self._subscriptions.setdefault(eventname, set()) - the set object bound to the event, a new
+   empty one (bound at the end of the dict) if there is none *)
+Definition find_key (sc : scope) (t : list sentry) : option nat :=
+  match find (fun e => scope_eqb (e_key e) sc) t with Some e => Some (e_id e) | None => None end.
+Definition lookup (s : state) (sc : scope) : state * nat :=
+  match find_key sc (tbl s) with
+  | Some id => (s, id)
+  | None => (set_nsets (set_tbl s (tbl s ++ [{| e_id := nsets s; e_key := sc; e_mem := [] |}])) (S (nsets s)), nsets s)
   end.
-(* which entries unsubscribe(conn, eventname) removes: the event itself and, for a module, everything below it *)
-Definition unsub_hits (c : conn) (sc : scope) (e : conn * scope) : bool :=
-  Nat.eqb (fst e) c &&
-  match sc, snd e with
+(* subscribe, second half: .add(conn) on the set object that was returned - whether it is still bound or not *)
+Definition mem_add (c : conn) (id : nat) (e : sentry) : sentry :=
+  if Nat.eqb (e_id e) id then {| e_id := e_id e; e_key := e_key e; e_mem := c :: e_mem e |} else e.
+Definition add_to (s : state) (c : conn) (id : nat) : state := set_tbl s (map (mem_add c id) (tbl s)).
+
+(* conns.discard(conn) on a set object *)
+Definition mem_del (c : conn) (id : nat) (e : sentry) : sentry :=
+  if Nat.eqb (e_id e) id then {| e_id := e_id e; e_key := e_key e; e_mem := remc c (e_mem e) |} else e.
+Definition discard_from (s : state) (c : conn) (id : nat) : state := set_tbl s (map (mem_del c id) (tbl s)).
+(* NOT what the code does (del = false everywhere except in Refuted.v): the variant of reset_connection that removes
+   the entry of a set that has become empty (`if not conns: del self._subscriptions[evt]`) *)
+Definition is_nil {A} (l : list A) : bool := match l with [] => true | _ => false end.
+Definition drop_empty (s : state) (id : nat) : state :=
+  set_tbl s (filter (fun e => negb (Nat.eqb (e_id e) id && is_nil (e_mem e))) (tbl s)).
+Definition discard_target (del : bool) (s : state) (c : conn) (t : target) : state :=
+  match t with
+  | TActv => set_actv s (remc c (actv s))
+  | TSet id => let s1 := discard_from s c id in if del then drop_empty s1 id else s1
+  end.
+(* reset_connection: list(self._subscriptions.items()) is taken when the loop starts; self._active_connections last *)
+Definition reset_targets (s : state) : list target := map (fun e => TSet (e_id e)) (tbl s) ++ [TActv].
+
+(* which events unsubscribe(conn, eventname) discards from: the event itself and, for a module, everything below it *)
+Definition key_hits (sc key : scope) : bool :=
+  match sc, key with
   | SM m, SM m' => Nat.eqb m m'
   | SM m, SP m' _ => Nat.eqb m m'
   | SP m p, SP m' p' => Nat.eqb m m' && Nat.eqb p p'
   | _, _ => false
   end.
-(* handle_deactivate *)
+Definition mem_unsub (c : conn) (sc : scope) (e : sentry) : sentry :=
+  if key_hits sc (e_key e) then {| e_id := e_id e; e_key := e_key e; e_mem := remc c (e_mem e) |} else e.
+(* handle_deactivate (one step: it runs under the dispatcher lock and contains no switch point) *)
 Definition unregister (s : state) (c : conn) (sc : scope) : state :=
   match sc with
   | SG => set_actv s (remc c (actv s))
-  | _ => set_subs s (filter (fun e => negb (unsub_hits c sc e)) (subs s))
+  | _ => set_tbl s (map (mem_unsub c sc) (tbl s))
   end.
-(* reset_connection *)
-Definition reset (s : state) (c : conn) : state :=
-  set_actv (set_subs s (filter (fun e => negb (Nat.eqb (fst e) c)) (subs s))) (remc c (actv s)).
 
 (* ---- one step of a connection thread *)
 (* go on to the next module of the snapshot, or leave the handler (release Dispatcher._lock) with the reply *)
@@ -196,7 +244,7 @@ Definition enter_groups (s : state) (c : conn) (sc : scope) (groups : list (nat 
 
 Definition handle (nd : node) (s : state) (c : conn) (r : req) : state :=
   match r with
-  | RIdn => set_cpc (reset s c) c (CSendR RpIdent)
+  | RIdn => set_cpc (set_dlock s (Some c)) c (CDisc (reset_targets s) KIdent)
   | RDeact sc data =>
       if data then set_cpc s c (CSendR (RpErr 0))
       else set_cpc (unregister s c sc) c (CSendR RpInactive)
@@ -204,10 +252,21 @@ Definition handle (nd : node) (s : state) (c : conn) (r : req) : state :=
       if data then set_cpc s c (CSendR (RpErr 0))
       else match act_error nd sc with
            | Some e => set_cpc s c (CSendR (RpErr e))
-           | None => enter_groups (set_dlock (register s c sc) (Some c)) c sc (snapshot_groups nd sc)
+           | None =>
+               match sc with
+               | SG => enter_groups (set_dlock (register_g s c) (Some c)) c sc (snapshot_groups nd sc)
+               | _ => set_cpc (set_dlock (fst (lookup s sc)) (Some c)) c (CAdd sc (snd (lookup s sc)))
+               end
            end
   | RBogus => set_cpc s c (CSendR (RpErr 0))      (* since bfc762a: ProtocolError, the identification handler is not reached *)
   | RClose => set_cpc s c (CSendR (RpErr 0))      (* not a request: never reaches the dispatcher *)
+  end.
+
+(* reset_connection has returned: to handle__ident (reply, the dispatcher lock is released) or to finish *)
+Definition after_reset (s : state) (c : conn) (k : dcont) : state :=
+  match k with
+  | KIdent => set_cpc (set_dlock s None) c (CSendR RpIdent)
+  | KClose => set_cpc s c CDone
   end.
 
 Definition pop_script (s : state) (c : conn) (pc : cpc) : state :=
@@ -219,18 +278,20 @@ Definition cenabled (s : state) (c : conn) : bool :=
   | CAcq _ => match dlock s with None => true | Some _ => false end
   | CAcqU _ ((m, _) :: _) => match ulock s m with None => true | Some _ => false end
   | CAcqU _ [] => false
+  | CDisc [] _ => false
   | CDone => false
   | _ => true
   end.
 
-Definition cstep_conn (nd : node) (s : state) (c : conn) : state :=
+(* del = false: the code; del = true: the refuted variant of reset_connection (Refuted.v) *)
+Definition cstep_conn_gen (del : bool) (nd : node) (s : state) (c : conn) : state :=
   if negb (cenabled s c) then s else
   match c_pc (cth s c) with
   | CStart => set_cpc s c CRecv
   | CRecv =>
       match c_script (cth s c) with
       | [] => s
-      | RClose :: _ => pop_script (log_add (reset s c) c EClose) c CDone
+      | RClose :: _ => pop_script (log_add s c EClose) c (CDisc (reset_targets s) KClose)
       | r :: _ => pop_script (log_add s c (EReq r)) c (CAcq r)
       end
   | CAcq r => handle nd s c r
@@ -243,8 +304,13 @@ Definition cstep_conn (nd : node) (s : state) (c : conn) : state :=
       let s1 := log_add s c (EUpd (m, i) v) in enter_groups (set_ulock s1 (upd (ulock s1) m None)) c sc rest
   | CSendU sc m i v todo rest => set_cpc (log_add s c (EUpd (m, i) v)) c (CBuild sc m todo rest)
   | CSendR r => set_cpc (log_add s c (ERep r)) c CRecv
+  | CAdd sc id => enter_groups (add_to s c id) c sc (snapshot_groups nd sc)
+  | CDisc [] k => s
+  | CDisc [t] k => after_reset (discard_target del s c t) c k
+  | CDisc (t :: ts) k => set_cpc (discard_target del s c t) c (CDisc ts k)
   | CDone => s
   end.
+Definition cstep_conn := cstep_conn_gen false.
 
 (* ---- one step of a driver thread *)
 Definition next_upd (s : state) (u : nat) : state :=
@@ -294,18 +360,21 @@ Definition cstep_upd (nd : node) (s : state) (u : nat) (target : conn) : state :
   end.
 
 (* a step: (thread, target connection of a broadcast send; ignored by all other steps) *)
-Definition cstep (nd : node) (s : state) (st : tid * conn) : state :=
+Definition cstep_gen (del : bool) (nd : node) (s : state) (st : tid * conn) : state :=
   match fst st with
-  | TC c => cstep_conn nd s c
+  | TC c => cstep_conn_gen del nd s c
   | TU u => cstep_upd nd s u (snd st)
   end.
+Definition cstep := cstep_gen false.
 
 Definition init (cs : list (list req)) (us : list (list (pid * nat))) : state :=
-  {| actv := []; subs := []; cache := fun _ => 0; logs := fun _ => []; dlock := None; ulock := fun _ => None;
+  {| actv := []; tbl := []; nsets := 0; cache := fun _ => 0; logs := fun _ => []; dlock := None; ulock := fun _ => None;
      cth := fun c => {| c_pc := CStart; c_script := nth c cs [] |};
      uth := fun u => {| u_pc := UStart; u_script := nth u us [] |};
      bcasts := [] |}.
 
+Definition run_from_gen (del : bool) (nd : node) (s : state) (sched : list (tid * conn)) : state :=
+  fold_left (cstep_gen del nd) sched s.
 Definition run_from (nd : node) (s : state) (sched : list (tid * conn)) : state := fold_left (cstep nd) sched s.
 Definition run (nd : node) (cs : list (list req)) (us : list (list (pid * nat))) (sched : list (tid * conn)) : state :=
   run_from nd (init cs us) sched.
